@@ -108,7 +108,9 @@ PROPS = {
         jobs=[dict(harness="hist", prop="hist_c10", cases=(8000, 200000), size=(40, 120))],
     ),
     "C12": dict(
-        rule="histories over buffer_qr(storable/unstorable)/buffer_aec(repeating keys)/buffer_mm/write_block/set_active/counter queries with max_block_items in {0,1,2,3,5} "
+        rule="(a) EXHAUSTIVE: every sequence of length 5 (thorough: 7) over the alphabet {qr storable, qr unstorable, aec key1, aec key2, mm, write_block, set_active(other set), counter query} x "
+             "max_block_items in {0,1,2,3} x AEC hint on/off x MM hint on/off (16 configurations, second set with another size); (b) random: "
+             "histories over buffer_qr(storable/unstorable)/buffer_aec(repeating keys)/buffer_mm/write_block/set_active/counter queries with max_block_items in {0,1,2,3,5} "
              "and 2..3 parameter sets. Oracle after every step: return value non-zero <=> reference model flushed; four counters + active index equal the model; at the end the file "
              "holds exactly the model's blocks (sizes, order, AEC counts), none empty, none above its maximum. Non-trivial: a flush caused by a buffer call with >=2 item kinds, or a "
              "parameter switch followed by a flush.",
@@ -116,7 +118,10 @@ PROPS = {
         level_note="max_block_items == 0 modelled as 1 (property statement); unstorable records on an empty max-0 block with a pending parameter switch are excluded by construction",
         technique="property-based testing: stateful model-based testing (rapidcheck), invariant after every step",
         assumptions=[],
-        jobs=[dict(harness="hist", prop="hist_c12", cases=(10000, 250000), size=(40, 200))],
+        jobs=[
+            dict(harness="hist", prop="hist_c12enum", kind="enum", size=(5, 7)),
+            dict(harness="hist", prop="hist_c12", cases=(10000, 250000), size=(40, 200)),
+        ],
     ),
     "C13": dict(
         rule="rotation-rich histories (rotate_output name|fd with export in {0,1}, consecutive rotations, rotation after add+set parameters), all compression modes. Oracle: each closed output "
